@@ -33,13 +33,19 @@ impl<'de, const LENGTH: usize> Deserialize<'de> for StackByteArray<LENGTH> {
                 let mut arr = StackByteArray::<LENGTH>::new();
                 let mut idx: usize = 0;
 
+                // a fixed-length value must be given exactly LENGTH elements:
+                // neither pad a short sequence nor drop surplus elements
                 while let Some(elem) = seq.next_element()? {
                     if idx < LENGTH {
                         arr[idx] = elem;
                         idx += 1;
                     } else {
-                        break;
+                        return Err(Error::invalid_length(idx + 1, &stringify!(LENGTH)));
                     }
+                }
+
+                if idx != LENGTH {
+                    return Err(Error::invalid_length(idx, &stringify!(LENGTH)));
                 }
 
                 Ok(arr)
